@@ -14,6 +14,7 @@ Line protocol (stateless, one case per line):
                 u                  atv.close()
                 a<m>               public member number m of the generated table
                 s | t              push_updater.start() | .stop() on the held object
+                x                  the user drops the device object, keeps the interface objects obtained before
                 p<i><beh>          protocol i's push updater posts an update (beh = the PushListener handler)
   → <outs> N=<notified> C=<calls_made> K=<close log> P=<id:tasks|-> B=<per member 1 blocked/0> S=<push on> R=<raised> I=<inner>
      outs     : csv per event: `-` | set<id>:<n> | raised | userRaised | escaped | blocked | pass | d0 | d1
@@ -66,6 +67,7 @@ def parseEv? (w : String) : Option Ev :=
   | ['u'] => some .userClose
   | ['s'] => some .pushStart
   | ['t'] => some .pushStop
+  | ['x'] => some .dropDevice
   | 'r' :: d :: rest =>
     if d.isDigit then do
       let (k, b) ← parseReportTok? (String.ofList rest)
@@ -97,6 +99,7 @@ def Out.toStr : Out → String
   | .pass => "pass"
   | .badMember => "bad-member"
   | .delivered b => if b then "d1" else "d0"
+  | .gone => "gone"
 
 def innerToStr (e : Bool × InEv × Out) : String :=
   let who := if e.1 then "d" else "p"
